@@ -312,9 +312,18 @@ fn sc_percentage(ctx: &mut Ctx) {
     // the last one is more than everything offered: the helper then fails in its balancing step
     let out_coin = *ctx.pick_free(&[2_000_000u64, 19_000_000, 4_990_000_000, 6_000_000_000]);
     let strat = ctx.choose_free(2) as u8;
-    ctx.observe(&(mask, pct, out_coin, strat));
+    // a fee request made before the helper runs: the percentage applies to the fee the body ends up with
+    let fee_req = ctx.choose_free(5);
+    ctx.observe(&(mask, pct, out_coin, strat, fee_req));
     let p = Params::mainnet();
     let mut tb = TransactionBuilder::new(&p.config());
+    match fee_req {
+        1 => tb.set_min_fee(&bn(1000)),
+        2 => tb.set_min_fee(&bn(5_000_000)),
+        3 => tb.set_fee(&bn(300_000)),
+        4 => tb.set_fee(&bn(100)),
+        _ => {}
+    }
     tb.add_output(&TransactionOutput::new(&enterprise_addr(3), &Value::new(&bn(out_coin)))).unwrap();
     let mut cb = TxInputsBuilder::new();
     for i in &sel {
@@ -326,7 +335,7 @@ fn sc_percentage(ctx: &mut Ctx) {
         pool.add(&TransactionUnspentOutput::new(&crate::builder::op_outpoint(k), &TransactionOutput::new(&enterprise_addr(k), &Value::new(&bn(c)))));
     }
     let change = base_addr(3, 1);
-    let what = format!("collateral {:?} ; add_inputs_from_and_change_with_collateral_return(pct {}) ; output {} ; strategy {}", sel, pct, out_coin, strat);
+    let what = format!("collateral {:?} ; fee request {} ; add_inputs_from_and_change_with_collateral_return(pct {}) ; output {} ; strategy {}", sel, ["none", "set_min_fee(1000)", "set_min_fee(5000000)", "set_fee(300000)", "set_fee(100)"][fee_req], pct, out_coin, strat);
     ctx.set_sample(|| what.clone());
     let res = crate::builder::with_rng(ctx, true, || guard(|| tb.add_inputs_from_and_change_with_collateral_return(&pool, crate::builder::strategy(strat), &ChangeConfig::new(&change), &bn(pct))));
     match res {
@@ -347,6 +356,9 @@ fn sc_percentage(ctx: &mut Ctx) {
         }
         Ok(Ok(())) => {
             ctx.hit("ok:percentage-helper");
+            if fee_req != 0 {
+                ctx.hit("ok:percentage-helper-after-a-fee-request");
+            }
             match fields(&tb) {
                 Ok(f) => {
                     judge_fields(ctx, &f, p.coins_per_byte, "percentage-helper", &what);
@@ -389,10 +401,10 @@ pub fn scenario(name: &str, tier: Tier) -> Option<BoxedScenario> {
 
 pub fn run(tier: Tier, seed: u64) -> i32 {
     let mut rep = Report::new(P, tier, seed);
-    rep.rule = "collateral input sets of size 1..3 (thorough 1..5) over 5 candidates (ADA at three widths, ADA+A, ADA+A+B) x {set_collateral_return_and_total with 9 return coins around min-ADA / the input total x 8 asset choices (exact, fewer, more, another policy, none, partial, another asset name under a held policy x2); set_total_collateral_and_return with 9 totals} x coins_per_byte {4310, 1} x 4 dressings of the explicit return output (plain, data hash, 64-byte inline datum, script reference) x both orders of setting collateral and balancing; percentage helper: collateral sets (incl. none) x 7 percentages x 4 output sizes (one beyond everything offered, so that the helper fails while balancing) x 2 strategies. distinct = distinct argument tuples".into();
+    rep.rule = "collateral input sets of size 1..3 (thorough 1..5) over 5 candidates (ADA at three widths, ADA+A, ADA+A+B) x {set_collateral_return_and_total with 9 return coins around min-ADA / the input total x 8 asset choices (exact, fewer, more, another policy, none, partial, another asset name under a held policy x2); set_total_collateral_and_return with 9 totals} x coins_per_byte {4310, 1} x 4 dressings of the explicit return output (plain, data hash, 64-byte inline datum, script reference) x both orders of setting collateral and balancing; percentage helper: collateral sets (incl. none) x 7 percentages x 4 output sizes (one beyond everything offered, so that the helper fails while balancing) x 2 strategies x 5 fee requests made beforehand (none, lower bound below / above the computed fee, exact above / far below). distinct = distinct argument tuples".into();
     rep.assume("the raw pass-through setters set_collateral_return / set_total_collateral validate nothing by design and are not entry points of this property");
     rep.trusted_base = vec!["notes/ledger_rules.md §7".into(), "refcbor".into()];
-    rep.required_hits = vec!["ok:return_and_total", "ok:total_and_return", "ok:percentage-helper", "equation-holds", "asset-carrying-collateral", "err:assets-left-in-total", "err:return-below-min-ada", "err:total-exceeds-inputs", "helper-used-twice", "return-output-with-datum-or-script-ref", "percentage-helper-err", "percentage-helper-err-in-balancing", "pct-with-remainder"];
+    rep.required_hits = vec!["ok:return_and_total", "ok:total_and_return", "ok:percentage-helper", "equation-holds", "asset-carrying-collateral", "err:assets-left-in-total", "err:return-below-min-ada", "err:total-exceeds-inputs", "helper-used-twice", "return-output-with-datum-or-script-ref", "percentage-helper-err", "percentage-helper-err-in-balancing", "pct-with-remainder", "ok:percentage-helper-after-a-fee-request"];
     for name in ["explicit", "percentage"] {
         let f = scenario(name, tier).unwrap();
         let st = explore(name, &*f, &Opts::new(seed));
